@@ -248,3 +248,44 @@ Proof.
   intros H. unfold run_step. destruct (plan m (has_soil w) step) as [p|e] eqn:Hp; [|reflexivity].
   apply run_plan_same. intros x Hx. eapply run_action_same; eauto.
 Qed.
+
+(* ---- the raster entry point cannot run mortality or spread rates ---- *)
+Definition tiny_host : hostcfg := mkhostcfg SI 0 false 1 false 1 (Some (1%Q, (1 # 2)%Q, 0)).
+Definition tiny_cfg : config :=
+  mkconfig 1 1 [tiny_host] false false 1 None false 0 false false 0 0 0 0.
+Definition tiny_world : world :=
+  mkworld [mkhp [mkcell 5 [] 4 0 0 [4; 0] 0 9] [(0, 0)]] [0] [0] [] None None None None None 0.
+Definition tiny_model (mort rates : bool) : model_cfg :=
+  mkmodelcfg tiny_cfg false [] false [] [false] false false false mort [true] rates [true] false [] 1.
+Definition tiny_inputs : inputs := mkinputs [] [] [9] [] [].
+
+Lemma raster_entry_mortality_refuted :
+  (exists tr w', fst (run_step (tiny_model true false) tiny_inputs 0 tiny_world []) = Ok (tr, w', [])) /\
+  fst (run_step_rasters (tiny_model true false) tiny_inputs 0 tiny_world []) = Err InvalidArgument.
+Proof. split; [eexists; eexists; vm_compute; reflexivity|vm_compute; reflexivity]. Qed.
+
+Lemma raster_entry_spread_rate_refuted :
+  (exists tr w', fst (run_step (tiny_model false true) tiny_inputs 0 tiny_world []) = Ok (tr, w', [])) /\
+  fst (run_step_rasters (tiny_model false true) tiny_inputs 0 tiny_world []) = Err OutOfRange.
+Proof. split; [eexists; eexists; vm_compute; reflexivity|vm_compute; reflexivity]. Qed.
+
+(* with neither of the two features the entry points agree (one host, no
+   pest-host table, no competency table, no treatments) *)
+Definition raster_compatible (m : model_cfg) (inp : inputs) : Prop :=
+  Forall (fun h => h_pht h = None) (g_hosts (m_g m)) /\ g_competency (m_g m) = None /\
+  in_treatments inp = [] /\ m_rate_capacity m = 0.
+
+Lemma strip_pht_id h : h_pht h = None -> strip_pht h = h.
+Proof. destruct h; cbn. intros ->. reflexivity. Qed.
+
+Theorem entry_points_agree m inp step w t : raster_compatible m inp ->
+  run_step_rasters m inp step w t = run_step m inp step w t.
+Proof.
+  intros (Hp & Hc & Ht & Hr). unfold run_step_rasters, raster_entry_cfg.
+  assert (Hh : map strip_pht (g_hosts (m_g m)) = g_hosts (m_g m)).
+  { induction Hp as [|h r Hh _ IH]; cbn [map]; [reflexivity|]. rewrite strip_pht_id, IH by assumption. reflexivity. }
+  rewrite Hh. clear Hh Hp.
+  destruct m as [g ul ls us ss sp uo um ut umo ms usr srs uq qs rc]. cbn in Hc, Hr |- *. subst rc.
+  destruct g as [gr gc gh gal ges gep gcomp gw gsp gsg gse gsep gop glp glt]. cbn in Hc |- *. subst gcomp.
+  destruct inp as [it isv itp imv itr]. cbn in Ht |- *. subst itr. reflexivity.
+Qed.
